@@ -257,6 +257,13 @@ def unit_vt():
             ctx.oblige("C17/vt/contract/upper-for-x>=0", z3.Implies(x.t >= 0, r <= t.t), meta=meta)
             ctx.oblige("C17/vt/contract/lower-for-x<=0", z3.Implies(x.t <= 0, r >= -t.t), meta=meta)
             ctx.oblige("C17/vt/contract/bounded-by-|x|+t", z3.And(r <= ax + t.t, r >= -ax - t.t), meta=meta)
+            # 'within 2t of V~' on this branch: V~(x,t) = (phi(a) - phi(b))/(Phi(b) - Phi(a)), a = -t-x,
+            # b = t-x, is the mean of a standard normal conditioned on [a, b] (phi' = -z phi), hence
+            # lies in [a, b] (A-cond-mean); the asymptote is an end point of that interval
+            Vt = z3.Real("Vt_exact")
+            ctx.assume(Vt == Vt_spec(x.t, t.t))
+            ctx.assume(z3.And(Vt >= -t.t - x.t, Vt <= t.t - x.t))
+            ctx.oblige("C17/vt/asymptote/within-2t-of-V~", z3.And(r - Vt <= 2 * t.t, Vt - r <= 2 * t.t), meta=meta)
         else:
             paths["exact"] += 1
             P = field.Prover(ctx.hyps(), list(ctx.facts.values()))
@@ -528,6 +535,14 @@ def unit_mills_recheck():
         if z > 0 and not (Vv >= z + (z ** 3 + 7 * z) / (z ** 4 + 9 * z * z + 8)):
             bad.append("c5@" + str(z))
         z += D("0.01")
+    # A-cond-mean on a grid: -t-x <= V~(x,t) <= t-x
+    for xs in range(-24, 25):
+        for ts in ("1e-8", "1e-5", "1e-2"):
+            xv, tv = D(xs) / 2, D(ts)
+            a, b = -tv - xv, tv - xv
+            Vt = (H.phi(a) - H.phi(b)) / (H.Phi(b) - H.Phi(a))
+            if not (a <= Vt <= b):
+                bad.append(f"cond-mean@{xv},{tv}")
     return [driver.rec("C17/A-Mills/numeric-recheck", "discharged" if not bad else "open", "decimal-50-digits", 0, kind="vacuity",
                        fn="A-Mills", note=str(bad[:5]) if bad else "1/(2-y) <= V(y)+y, V(y) <= -y+4/5 and the fifth-convergent lower bound of V confirmed on 1201 points of [-12, 0]")]
 
@@ -549,10 +564,10 @@ def main(tier, seed):
         assumptions=[
             "A-Phi: 0 < Phi < 1, Phi monotone (instances), reflection, phi > 0, phi even",
             "A-tab: rational enclosures of Phi / erf at a few fixed points (e.g. Phi(-8.13) < 2^-52 < Phi(-8.12)), numerically re-checked against a 50-digit reference on every run",
-            "A-Mills (assumed real analysis): V > 0, V(y) + y > 0, V(y) <= -y - 1/y and V(y) >= z + (z^3+7z)/(z^4+9z^2+8) (z = -y) for y < 0, 0 < W < 1, -V(-x-t) <= V~(x,t) <= V(x-t), 0 < W~ <= 1",
+            "A-Mills (assumed real analysis): V > 0, V(y) + y > 0, V(y) <= -y - 1/y and V(y) >= z + (z^3+7z)/(z^4+9z^2+8) (z = -y) for y < 0, 0 < W < 1, -V(-x-t) <= V~(x,t) <= V(x-t), 0 < W~ <= 1; A-cond-mean: -t-x <= V~(x,t) <= t-x (V~ is the mean of a standard normal conditioned on [-t-x, t-x])",
             "E-mode: first-order relative-error model with u = 2^-53; A-libm: erf/erfc/exp within 4u of the mathematical function, sqrt correctly rounded; assumed condition-number bounds kappa_erf <= 1, kappa_erfc(a) <= 2a^2+2a+1 (a > 0), <= 1 (a <= 0); x in [-37.5, 38]",
             "accuracy of v, w on the exact branch (E-mode): contracts of phi_major / phi_minor (relative error <= 1e-12, the two obligations above) + assumed condition numbers kappa_Phi(y) <= y^2 + 1, kappa_phi(y) = y^2 + A-Mills instances 1/(2 - y) <= V(y) + y and V(y) <= -y + 4/5 for y <= 0 (numerically re-checked on a grid each run); domain x >= -1000 and y = x - t <= 37.5 (above it phi(y) is subnormal or zero and no double is within 1e-6 relative of V)",
-            "NOT DECIDED: 'vt within 2t of V~' and 'wt within 20t + 1e-13/t of W~' on the asymptotic branches; the range of wt on the sub-path where its inner vt calls take the 1e-5 asymptote (its returned form is pinned, its range is numerical)",
+            "NOT DECIDED: 'wt within 20t + 1e-13/t of W~' on its asymptotic sub-path; the range of wt on the sub-path where its inner vt calls take the 1e-5 asymptote (its returned form is pinned, its range is numerical)",
             "R-mode obligations treat machine arithmetic as mathematical; t in [1e-8, 1e-2]",
         ],
         explanation=("The real v, w, vt, wt are executed from their AST on symbolic (x, t) with phi_major/phi_minor replaced by contract functions anchored by tabulated enclosures; every path (guard / exact / asymptote, x < 0 / x >= 0) is explored and its returned expression proved equal to the paper's V, W, V~, W~ (exact normal forms with Phi reflection and phi evenness syntactic) or to the documented asymptote, "
